@@ -29,7 +29,7 @@ def verdict (cfg : Cfg) (p : Program) (edb : DB) (impl : String) : String × Boo
     | none => true)
   let nt := !ws.isEmpty
   if !hasDup ws && bad.isEmpty then (specOk, nt) else
-  let detail := if hasDup ws then "duplicate" else "shape:" ++ (bad.headD "")
+  let detail := if hasDup ws then "duplicate" else "shape"
   let cls :=
     if queryRel p != answeredRel p then "last_rule_head_not_last_head"
     else if lastHeadMultiClauseWithSip cfg p then "last_head_multi_clause_with_sip"
@@ -47,6 +47,23 @@ def runH : Handler := fun args impl =>
     { model := if allOff cfg && m != "err:fragment" then m else impl, spec := sv, nt := nt }
   | none => badReq
 
-def handlers : List (String × Handler) := [("c07.run", runH)]
+/-- `c07.rank cfg <arity> <iql-hex> | facts`: ranking-aggregate heads (IQL text, not modelled):
+    the answer must be duplicate-free and every tuple must have the head's arity
+    (group variables + output variables). Model column echoes. -/
+def rankH : Handler := fun args impl =>
+  match args with
+  | _ :: ar :: _ :: _ =>
+    match ar.toNat? with
+    | some n =>
+      if impl.startsWith "err:" then { model := impl, spec := "na", nt := false } else
+      let ws := if impl == "{}" then [] else impl.splitOn ";"
+      let bad := ws.filter (fun w => match Tuple.ofWire w with | some t => t.length != n | none => true)
+      let sv := if hasDup ws then specFail "unclassified" "rank duplicate"
+        else if !bad.isEmpty then specFail "unclassified" "rank-shape" else specOk
+      { model := impl, spec := sv, nt := !ws.isEmpty }
+    | none => badReq
+  | _ => badReq
+
+def handlers : List (String × Handler) := [("c07.run", runH), ("c07.rank", rankH)]
 
 end ILV.Drv.C07
